@@ -13,7 +13,6 @@ REPLAYS = os.environ.get("VERIF_REPLAY_DIR") or os.path.join(env.VERIF, "replays
 KNOWN = os.path.join(env.VERIF, "known_findings.json")
 # replay mode (./check <ID> --replay <file>): the check is run again with the tier and seed recorded in the file and only
 # violations carrying the file's signature count; evidence goes to a scratch directory
-REPLAY_FILE = os.environ.get("VERIF_REPLAY_FILE")
 
 
 def _jsonable(o):
@@ -44,8 +43,9 @@ class Run:
         self.pid = pid
         self.level = level
         self.replay = None
-        if REPLAY_FILE:
-            with open(REPLAY_FILE) as f:
+        self.replay_file = os.environ.get("VERIF_REPLAY_FILE")
+        if self.replay_file:
+            with open(self.replay_file) as f:
                 self.replay = json.load(f)
             if self.replay.get("property") != pid:
                 raise HarnessError("replay file is for %s, not %s" % (self.replay.get("property"), pid))
@@ -103,13 +103,13 @@ class Run:
     def finish_replay(self):
         want = dumps(self.replay["signature"], sort_keys=True)
         hits = [(sg, cs) for sg, cs in self.violations if dumps(sg, sort_keys=True) == want]
-        print("replay of %s (tier=%s seed=%d): signature %s" % (REPLAY_FILE, self.tier, self.seed, want[:400]))
+        print("replay of %s by re-running the check (tier=%s seed=%d) and keeping only this signature: %s" % (self.replay_file, self.tier, self.seed, want[:400]))
         if not hits:
             print("replay: the recorded violation is NOT reproduced on this tree (%d other violating cases)" % len(self.violations))
             return 0
         print("replay: reproduced, %d case(s) with this signature; first case:" % len(hits))
         print(dumps(hits[0][1], indent=1, sort_keys=True)[:3000])
-        print("VIOLATION property=%s replay=%s" % (self.pid, REPLAY_FILE))
+        print("VIOLATION property=%s replay=%s" % (self.pid, self.replay_file))
         return 1
 
     def finish(self, extra_cov=None, exhaustive=None):
